@@ -16,6 +16,11 @@ PKG = "hypergraph"
 SRC_REL = "src"
 
 
+# parsed trees are reused across ProgramDB instances of one process (self-test workers analyse
+# hundreds of overlays that differ in one file); all per-database state is keyed by the database
+_TREE_CACHE: dict[tuple[str, int], ast.Module] = {}
+
+
 class AnalysisError(Exception):
     """The analysis itself is broken (anchor vanished, parse error, floor not met)."""
 
@@ -359,10 +364,15 @@ class ProgramDB:
             else:
                 with open(os.path.join(self.repo, rel), encoding="utf-8") as fh:
                     src = fh.read()
-            try:
-                tree = ast.parse(src, filename=rel)
-            except SyntaxError as e:
-                raise AnalysisError(f"cannot parse {rel}: {e}") from e
+            key = (rel, hash(src))
+            tree = _TREE_CACHE.get(key)
+            if tree is None:
+                try:
+                    tree = ast.parse(src, filename=rel)
+                except SyntaxError as e:
+                    raise AnalysisError(f"cannot parse {rel}: {e}") from e
+                if len(_TREE_CACHE) < 400:
+                    _TREE_CACHE[key] = tree
             parts = rel[len(SRC_REL) + 1 : -3].split(os.sep)
             is_pkg = parts[-1] == "__init__"
             if is_pkg:
